@@ -273,6 +273,9 @@ def expr_st():
             st.tuples(st.sampled_from(("add", "sub", "mul", "div")), ch, ch).map(list),
             cmp_,
             st.tuples(st.sampled_from(("and", "or")), cmp_, cmp_).map(list),
+            # the neutral element on either side: the collection must not depend on which
+            st.tuples(st.sampled_from(("and", "or")), cmp_, st.just(["emptycrit"])).map(list),
+            st.tuples(st.sampled_from(("and", "or")), st.just(["emptycrit"]), cmp_).map(list),
             st.tuples(st.just("neg"), ch).map(list),
             st.tuples(st.just("not"), cmp_).map(list),
             st.tuples(st.just("isnull"), ch).map(list),
@@ -336,7 +339,13 @@ def collect_check(node):
     env = prog.Env("generic", SRC)
     t = prog.build_expr(node, env)
     want = ref_fields(node, set())
-    got = {(lib_ident(f.table), f.name) for f in t.fields_()}
+    if node == ["emptycrit"] or not hasattr(t, "fields_"):
+        return None
+    try:
+        got = {(lib_ident(f.table), f.name) for f in t.fields_()}
+        t.tables_
+    except Exception as e:
+        return ("collect_raises:" + type(e).__name__, "fields_() / tables_ of the expression raised %r" % (e,))
     if got != want:
         return ("fields_lost" if want - got else "fields_invented", "fields_() = %s, expression mentions %s" % (sorted(map(str, got)), sorted(map(str, want))))
     want_t = {p[0] for p in want}
